@@ -45,6 +45,7 @@ def run(ctx):
     rep.rule("C18.R4", "one scalar prox parameter per vector-valued friction law (Coulomb direction)", 4)
     rep.rule("C18.R3", "active-set restriction of velocity-level normal percussions", 3)
     rep.rule("C18.R5", "local normal/friction connectivity of the active set (index typing in compute_I_F)", 4)
+    rep.rule("C18.R6", "one evaluation point (t, q) for all gap-rate terms of a velocity-level Signorini update", 3)
     nf_link(ctx)
     for rel, cname, q, level in SITES:
         cls = ctx.repo.get(rel, cname)
@@ -93,12 +94,15 @@ def run(ctx):
                     good = "g_N" in fam and not ({"xi_N", "g_N_dot"} & fam)
                     want = "the gap g_N"
                 else:
-                    good = ("xi_N" in fam) or ("xi_N" in s and _restituted(ctx, rel, cname, "xi_N0"))
+                    good = ("xi_N" in fam) or ("xi_N" in s and _restituted(ctx, rel, cname, "xi_N0")) \
+                        or ("g_N_dot" in fam and _mentions(res, arg, "e_N"))
                     want = "the restituted gap rate xi_N"
                 if good:
                     rep.ok("C18.R2", C, f"{level}-level Signorini update uses {want}")
                 else:
                     rep.bad("C18.R2", C, c, f"{level}-level scheme must project with {want}; found `{s[:80]}` (families {sorted(fam)})", f"{rel}:{c.lineno}")
+            if r["kind"] == "N" and level == "velocity":
+                evaluation_point(rep, C, rel, c, arg, res)
         nloc, badloc = proxrule.check_locality(fn, tags)
         for node, msg in badloc:
             rep.bad("C18.R1", C, proxrule._stmt_of(node), msg, f"{rel}:{node.lineno}")
@@ -120,6 +124,59 @@ def run(ctx):
             else:
                 rep.bad("C18.R3", C, fn.name, "velocity-level normal percussions are not restricted to closed contacts (no active-set mask): an open contact "
                         "with approaching velocity would receive a percussion", f"{rel}:{fn.lineno}")
+
+
+POINT_METHODS = {"xi_N": ((0, 2), (1, 3)), "g_N_dot": ((0, 1),), "W_N": ((0, 1),), "g_N_dot_u": ((0, 1),)}
+
+
+def evaluation_point(rep, C, rel, call, arg, res, rule="C18.R6"):
+    """Newton's impact law  g_N_dot(+) + e_N g_N_dot(-)  is an equation between two velocities measured along ONE normal: the
+    restituted pre-impact gap rate, the post-impact gap rate and (where the operator form W_N.T @ u is used) the force
+    direction have to be evaluated at the same (t, q).  With two points the percussion acts along a normal different from the
+    one the approach speed was measured on and a frictionless impact with e_N = 1 changes the kinetic energy by
+    1/2 P_N (w(q+) - w(q-)).u-, which is positive for an approaching oblique pair."""
+    def base(e):
+        while isinstance(e, ast.Subscript):
+            e = e.value
+        seen = set()
+        while isinstance(e, ast.Name) and e.id in res.local and len(res.local[e.id]) == 1 and e.id not in seen:
+            seen.add(e.id)
+            v = res.local[e.id][0]
+            if isinstance(v, ast.Name) or (isinstance(v, ast.Attribute) and dotted(v)):
+                e = v
+            else:
+                break
+        return norm_src(e)
+    points = {}
+    for m, n in res.system_calls(arg):
+        for it, iq in POINT_METHODS.get(m, ()):
+            if len(n.args) > max(it, iq):
+                points.setdefault((base(n.args[it]), base(n.args[iq])), []).append(m)
+    if not points:
+        rep.note(f"{rule}: {C}: no gap-rate evaluation reaches `{norm_src(arg)[:70]}` (nothing to compare)")
+    elif len(points) == 1:
+        (pt, ms), = points.items()
+        rep.ok(rule, C, f"all gap-rate terms ({', '.join(sorted(set(ms)))}) are evaluated at ({pt[0]}, {pt[1]})")
+    else:
+        desc = "; ".join(f"{'/'.join(sorted(set(ms)))} at ({t}, {q})" for (t, q), ms in sorted(points.items()))
+        rep.bad(rule, C, proxrule._stmt_of(call), "the Newton-restituted gap rate mixes evaluation points: " + desc +
+                " - the pre-impact approach speed is measured along another normal than the one the percussion and the post-impact "
+                "gap rate use (kinetic energy can increase in a frictionless impact with e_N = 1)", f"{rel}:{call.lineno}")
+
+
+def _mentions(res, expr, attr, depth=0, seen=None):
+    """`attr` (a name or attribute) occurs in expr after expanding the function's locals."""
+    seen = seen if seen is not None else set()
+    if expr is None or depth > 6:
+        return False
+    for n in ast.walk(expr):
+        if (isinstance(n, ast.Attribute) and n.attr == attr) or (isinstance(n, ast.Name) and n.id == attr):
+            return True
+        if isinstance(n, ast.Name) and n.id in res.local and n.id not in seen:
+            seen.add(n.id)
+            if any(_mentions(res, v, attr, depth + 1, seen) for v in res.local[n.id]):
+                return True
+    return False
 
 
 def _restituted(ctx, rel, cname, attr):
@@ -280,7 +337,18 @@ MUTANTS += [
     dict(id="c18-r5-3", what="compute_I_F: the global normal index itself is handed out as local index", file=CB,
          old="                    i_N_local = np.where(i_N_global == I_N)[0]\n", new="                    i_N_local = np.array([i_N_global])\n", expect="C18.R5"),
 ]
+MUTANTS += [
+    dict(id="c18-r6-seed", canary=True, what="[seeded by sub-agent] DualStormerVerlet: restituted pre-impact gap rate hoisted out of the fixed point and evaluated at (tn, qn) instead of the midpoint", file=DSV,
+         edits=[(DSV, "            # TODO: Introduce slicing for active contacts as in Moreau\n", "            xi_Nn = self.system.e_N * self.system.g_N_dot(tn, qn, un)\n"),
+                (DSV, "                xi_N = self.system.xi_N(tm, tm, qm, qm, un, un1)\n", "                xi_N = self.system.g_N_dot(tm, qm, un1) + xi_Nn\n")],
+         expect=["C18.R6", "C18.R2"]),
+    dict(id="c18-r6-2", what="DualStormerVerlet: xi_N called with the old configuration as pre-impact point", file=DSV,
+         old="                xi_N = self.system.xi_N(tm, tm, qm, qm, un, un1)\n", new="                xi_N = self.system.xi_N(tn, tm, qn, qm, un, un1)\n", expect="C18.R6"),
+]
 NEUTRAL = [
+    dict(id="c18-n-r6", canary=True, what="DualStormerVerlet: xi_N decomposed, both terms at the midpoint", file=DSV,
+         old="                xi_N = self.system.xi_N(tm, tm, qm, qm, un, un1)\n",
+         new="                xi_N = self.system.g_N_dot(tm, qm, un1) + self.system.e_N * self.system.g_N_dot(tm, qm, un)\n"),
     dict(id="c18-n-r5", what="compute_I_F: np.flatnonzero instead of np.where(...)[0]", file=CB,
          old="                    i_N_local = np.where(i_N_global == I_N)[0]\n", new="                    i_N_local = np.flatnonzero(I_N == i_N_global)\n"),
     dict(id="c18-n-r4", canary=True, what="Moreau: scalar parameter through np.min and a local", file=MO,
